@@ -261,7 +261,7 @@ def run(tier: str) -> int:
                     # the resolution function in VHDL -- outside the two-valued model, not judged
                     counts["accept-same-block-overlap"] = counts.get("accept-same-block-overlap", 0) + 1
         # (a) E-PY
-        res, cpu = chrun.run_functions(epy_functions(), EPY_PRELUDE, per_cond=120 if tier == "quick" else 600, chunk=1)
+        res, cpu = chrun.run_functions(epy_functions(), EPY_PRELUDE, per_cond=600 if tier == "quick" else 1800, chunk=1)
         epy = {"confirmed": 0}
         for fn, (status, msg) in sorted(res.items()):
             rep.stats.queries += 1
